@@ -11,6 +11,7 @@ func init() { props["C26"] = checkC26 }
 func checkC26(r *Run) {
 	r.Explain = "C26: (R1) the peer map is written only by peerlist.addPeer and peerlist.setPeers, whose call chains are enumerated, and every address reaching them is the sanitised first result of a successful validateAddress (taint by term provenance); (R2) validateAddress succeeds exactly for ip:port with a parseable IP that is loopback-and-allowed or global unicast, a 16-bit port >= 1024, and returns the sanitised string; (R3) bulk adds return early when full and are cut to Max-len; a full list evicts only the result of findOldestUntrustedPeer (which skips trusted peers) and only if it is older than a day; clearOld deletes only untrusted peers."
 	r.NotDec = "start-up loading from a custom peers file is not capped (by design; reported in evidence); IPv4-vs-IPv6 distinctions inside net.ParseIP"
+	ruleNoCrossedConfig(r, "C26-R0")
 	// R1: writers of the peers map
 	n := 0
 	for _, fn := range r.P.ModFns {
